@@ -55,7 +55,7 @@ def fee_envelope(initial: int, usdg_delta: int, target: int, increment: bool, ra
     for d in range(-radius, radius + 1):
         if usdg_delta + d < 0:
             continue
-        for t in (target, target + 1):
+        for t in ((target, target + 1) if target > 0 else (0,)):  # a zero target (zero weight) stays zero
             out.add(fee_basis_points(initial, usdg_delta + d, t, increment))
     return out
 
@@ -240,18 +240,23 @@ def _impact_for_pool(cfg: V2Config, usd_a, usd_b, delta_a, delta_b):
 
 def deposit_price_impact(cfg: V2Config, st: V2State, long_usd, short_usd):
     """SwapPricingUtils.getPriceImpactUsd for a deposit (tokenA = long, tokenB = short, virtual inventory included).
-    Returns (impact_usd, info)."""
+    Returns (impact_usd, info).  info["candidates"]: every value a binary64 evaluation may legitimately return when
+    it cannot tell the sign of the real-pool impact (which decides whether the virtual inventory is consulted at
+    all): the real-pool impact itself and, if there is a virtual inventory, the worse of the two."""
     imp, kind, err = _impact_for_pool(cfg, st.long_amount * st.long_price, st.short_amount * st.short_price,
                                       long_usd, short_usd)
     # sign_ambiguous: a float evaluation cannot tell the sign of the real-pool impact, which selects the fee factor
     # and whether the virtual inventory is consulted at all
-    info = {"kind": kind, "virtual_used": False, "err": err, "sign_ambiguous": abs(imp) <= err}
-    if imp >= 0:
-        return imp, info
+    info = {"kind": kind, "virtual_used": False, "err": err, "sign_ambiguous": abs(imp) <= err, "candidates": [imp]}
     if st.virt_long is None or st.virt_short is None:
         return imp, info
     vimp, vkind, verr = _impact_for_pool(cfg, st.virt_long * st.long_price, st.virt_short * st.short_price,
                                          long_usd, short_usd)
+    if info["sign_ambiguous"]:
+        info["candidates"].append(min(vimp, imp))
+        info["err"] = max(err, verr)
+    if imp >= 0:
+        return imp, info
     info["err"] = max(err, verr)
     if vimp < imp:
         info["virtual_used"] = True
@@ -283,12 +288,17 @@ def _deposit_side(cfg: V2Config, st: V2State, price_in, price_out, amount, impac
     return mint, fee, capped, pos_gm, reverts
 
 
-def deposit(cfg: V2Config, st: V2State, long_amount, short_amount):
-    """Minted GM for a deposit of long_amount / short_amount (token units).  Returns a dict."""
+def deposit(cfg: V2Config, st: V2State, long_amount, short_amount, impact_override=None):
+    """Minted GM for a deposit of long_amount / short_amount (token units).  Returns a dict.
+    impact_override: evaluate fees and mint for this price impact (USD) instead of the model's own (used when the
+    sign of the impact is below float resolution and the implementation's value has been accepted)."""
     la, sa = Fraction(long_amount), Fraction(short_amount)
     long_usd, short_usd = la * st.long_price, sa * st.short_price
     total = long_usd + short_usd
     impact, info = deposit_price_impact(cfg, st, long_usd, short_usd)
+    if impact_override is not None:
+        impact = Fraction(impact_override)
+        info = dict(info, err=Fraction(0), overridden=True)
     gm = Fraction(0)
     long_fee = short_fee = Fraction(0)
     capped = False
